@@ -341,6 +341,11 @@ func init() {
 				jobs = append(jobs, Job{Dir: "z80", Harness: "VC07", Params: []int{3, p}, Label: fmt.Sprintf("VC07/im0-rst%02x", p*8)})
 			}
 			jobs = append(jobs, Job{Dir: "z80", Harness: "VC07", Params: []int{4, 0}, Label: "VC07/im0-call"})
+			// a request raised while disabled changes nothing until accepted: the block
+			// instructions and HALT with a refused request pending behave as without it
+			for _, e := range append(encsOf("block"), Enc{0, 0x76}, Enc{0, 0xfb}, Enc{0, 0xf3}) {
+				jobs = append(jobs, Job{Dir: "z80", Harness: "VC06Refused", Params: []int{e.Tbl, e.Op, 0}, Label: fmt.Sprintf("VC06Refused/%s/n0", e)})
+			}
 			// relational form: (accept; handler; return; X) vs (X) for the instruction X at the boundary
 			encs := append(reprEncs(), encsOf("ctl", "ir")...)
 			if tier == "thorough" {
@@ -437,6 +442,10 @@ func init() {
 				jobs = append(jobs, stepJobs(encs, "VC12DumbCut", k)...)
 			}
 			jobs = append(jobs, stepJobs(encs, "VC12Map")...)
+			// Run returns once its program halts: scripted programs incl. HALT, any IM, a
+			// maskable request pending at entry (accepted, refused or never consumable)
+			jobs = append(jobs, Job{Dir: "z80", Harness: "VC08Script", Params: []int{0, 3, 2}, Label: "VC08Script/run-returns-on-halt/any-im", MaxForks: 4096, MaxPaths: 100000})
+			jobs = append(jobs, Job{Dir: "z80", Harness: "VC08Script", Params: []int{0, 3, 1}, Label: "VC08Script/run-returns-on-halt/nmi", MaxForks: 4096, MaxPaths: 100000})
 			return jobs
 		},
 		Only: func(job Job, a string) bool {
@@ -510,6 +519,7 @@ func init() {
 			for bp := 0; bp <= 1; bp++ {
 				jobs = append(jobs, Job{Dir: "z80", Harness: "VC08Script", Params: []int{bp, k, 0}, Label: fmt.Sprintf("VC08Script/bp%d/k%d", bp, k), MaxForks: 4096, MaxPaths: 100000})
 				jobs = append(jobs, Job{Dir: "z80", Harness: "VC08Script", Params: []int{bp, k, 1}, Label: fmt.Sprintf("VC08Script/bp%d/k%d/nmi", bp, k), MaxForks: 4096, MaxPaths: 100000})
+				jobs = append(jobs, Job{Dir: "z80", Harness: "VC08Script", Params: []int{bp, k, 2}, Label: fmt.Sprintf("VC08Script/bp%d/k%d/int-any-im", bp, k), MaxForks: 4096, MaxPaths: 100000})
 			}
 			for p := 0; p <= 14; p++ {
 				jobs = append(jobs, Job{Dir: "z80", Harness: "VC08Prog", Params: []int{p}, Label: fmt.Sprintf("VC08Prog/%d", p), MaxForks: 256})
